@@ -77,6 +77,9 @@ pub struct LinkState {
     pub drop_k: BTreeSet<u64>,
     pub dup_k: BTreeSet<u64>,
     pub delay_k: BTreeMap<u64, u64>,
+    /// packets sent before this instant are held back by `slow_extra` ms (Op::Slow)
+    pub slow_until: u64,
+    pub slow_extra: u64,
     pub ledger: LinkLedger,
 }
 
@@ -212,6 +215,13 @@ impl NetInner {
     pub fn kill_link(&mut self, a: Addr, b: Addr) {
         self.link(a, b).dead = true;
     }
+    /// every packet sent on a->b during the next `len_ms` is delivered `extra_ms` late (not subject to heal)
+    pub fn slow(&mut self, a: Addr, b: Addr, len_ms: u64, extra_ms: u64) {
+        let until = now_ms() + len_ms;
+        let l = self.link(a, b);
+        l.slow_until = until;
+        l.slow_extra = extra_ms;
+    }
     pub fn outage(&mut self, a: Addr, b: Addr, len_ms: u64) {
         let until = now_ms() + len_ms;
         let l = self.link(a, b);
@@ -274,6 +284,10 @@ impl NetInner {
                 extra = *ms;
                 l.ledger.delayed += 1;
             }
+        }
+        if now < l.slow_until {
+            extra += l.slow_extra;
+            l.ledger.delayed += 1;
         }
         if log {
             let desc = match &mm.body {
